@@ -108,7 +108,7 @@ def build(cfg):
         mux = None
         for i, (w, acc, addr, al) in enumerate(cfg["regs"]):
             if mux is None and i == len(cfg["regs"]) - late:
-                mux = csr.Multiplexer(mm, shadow_overlaps=cfg["ov"])
+                mux = csr.Multiplexer(mm, shadow_overlaps=cfg["ov"]) if (cfg["ov"] is not None or len(cfg["regs"]) % 2) else csr.Multiplexer(mm)   # documented default if cfg["ov"] is not None else csr.Multiplexer(mm)      # documented default
                 if cfg.get("elab_between"):
                     from amaranth.hdl import Fragment
                     Fragment.get(mux, None)      # ... and after it was elaborated once
